@@ -3,8 +3,9 @@
 From Coq Require Import List Bool Arith NArith ZArith String Ascii.
 From Verif.Base Require Import Bytes Outcome Str.
 From Verif.Gen Require Import Consts.
-From Verif.Model Require Import IE Store.
-From Verif.Proofs Require Import Store_lemmas C20_lemmas.
+From Verif.Model Require Import LockTab Conc IE Store StoreConc.
+From Verif.Gen Require Import LocksCmdCollector.
+From Verif.Proofs Require Import Store_lemmas C20_lemmas Conc_lemmas StoreConc_lemmas.
 From Verif.Driver Require Import Show C20drv.
 Import ListNotations.
 Local Notation length := List.length.
@@ -87,6 +88,102 @@ Print Assumptions C20_fields_template.
 Theorem C20_trace : forall cs, C20_holds_on cs (model_obs store_cap cs) = true.
 Proof. exact C20_trace_lemma. Qed.
 Print Assumptions C20_trace.
+
+(* (7) CONCURRENT USE. In the running program arrivals (message loop), records queries and resets
+   (HTTP server goroutines, any number at once) overlap. What makes (1)-(6) apply is the lock
+   discipline of the package-level mutex, an obligation on the table regenerated from the source
+   on every run (tools/cmd/gensyntax/locks_cmdcollector.go -> Gen/LocksCmdCollector.v): every
+   access to flowRecords - including every access THROUGH a slice / pointer value derived from it,
+   e.g. `records := flowRecords[n:]` read after an Unlock - is classified and made with `mutex`
+   held (lockset_ok for: main one goroutine, handlers any number, one goroutine per go statement),
+   and every function that takes the mutex does so in one critical section covering all its
+   accesses to mutable state; the table is not empty of such rows *)
+Theorem C20_lock_discipline :
+  lockset_ok cc_thr cc_multi cmdcollector_accesses = true /\
+  forallb (holds_w cmdcollector_v_mutex) store_rows = true /\
+  guarded_by cmdcollector_v_mutex store_rows = true /\
+  forallb cc_meth_ok cmdcollector_methods = true /\
+  store_table_nonvacuous = true.
+Proof. exact store_lock_discipline_split. Qed.
+Print Assumptions C20_lock_discipline.
+
+Theorem C20_every_access_locked : forall a,
+  In a cmdcollector_accesses -> a_field a = cmdcollector_v_flowRecords ->
+  a_known a = true /\ exists l, In l (a_locks a) /\ fst l = cmdcollector_v_mutex /\ snd l = LW.
+Proof. exact store_every_access_locked. Qed.
+Print Assumptions C20_every_access_locked.
+
+(* hence no data race on the package-level state in any execution described by the table *)
+Theorem C20_race_free : forall tr,
+  lock_wf tr -> consistent cc_thr cc_multi cmdcollector_accesses tr ->
+  forall p3 t2 b r2 p2 t1 a r1 p1,
+    tr = p3 ++ (t2, Acc b r2) :: p2 ++ (t1, Acc a r1) :: p1 ->
+    t1 <> t2 -> racy a b = true -> ordered_between t1 t2 p2.
+Proof. exact store_race_free. Qed.
+Print Assumptions C20_race_free.
+
+(* under that discipline (operation = invoke ; mutex.Lock ; its micro-steps one at a time ;
+   Unlock = response): for every number of threads, every program of arrivals / queries / resets
+   per thread, every schedule and every cut of the critical sections into micro-steps that
+   composes to Store.step, the store once the lock holder finishes is the SEQUENTIAL run, in
+   lock-acquisition order, of the operations that acquired the lock - so it is the window of the
+   arrivals in that order, never longer than the cap - and the responses handed out so far are
+   the sequential results (at most the holder's is pending) *)
+Theorem C20_concurrent_window : forall micro : event -> list (store -> store),
+  (forall e s, apply_all store (micro e) s = Store.step store_cap s e) ->
+  forall progs sched,
+    let g := store_conc_run store_cap micro progs sched in
+    let order := lin event sresult (hist g) in
+    finish store event sresult g = Store.run store_cap (events_in order) [] /\
+    finish store event sresult g = lastn store_cap (arrivals (events_in order) []) /\
+    (length (finish store event sresult g) <= store_cap)%nat /\
+    exists pending, store_seq_results store_cap order [] = rels event sresult (hist g) ++ pending /\
+                    (holder g = None -> pending = []) /\ (length pending <= 1)%nat.
+Proof. exact (store_linearizable store_cap store_cap_pos). Qed.
+Print Assumptions C20_concurrent_window.
+
+(* every response handed out under any schedule is the sequential answer on the window of the
+   arrivals linearized before it: for a records query, `query` on that window, to which C20_query /
+   C20_formats / C20_refused apply verbatim *)
+Theorem C20_concurrent_responses : forall micro : event -> list (store -> store),
+  (forall e s, apply_all store (micro e) s = Store.step store_cap s e) ->
+  forall progs sched i r,
+    let g := store_conc_run store_cap micro progs sched in
+    In (i, r) (rels event sresult (hist g)) ->
+    exists before after, lin event sresult (hist g) = before ++ i :: after /\
+      r = store_res store_cap (op_of i) (lastn store_cap (arrivals (events_in before) [])).
+Proof. exact (store_responses store_cap store_cap_pos). Qed.
+Print Assumptions C20_concurrent_responses.
+
+(* the linearization respects real time (responded before invoked => earlier) and every thread's
+   program order *)
+Theorem C20_concurrent_real_time : forall (micro : event -> list (store -> store)) progs s1 s2 a r b,
+  let g1 := store_conc_run store_cap micro progs s1 in
+  let g2 := store_conc_run store_cap micro progs (s1 ++ s2) in
+  In (ERel a r) (hist g1) -> ~ In (EInv b) (hist g1) -> In b (lin event sresult (hist g2)) ->
+  exists l1 l2 l3, lin event sresult (hist g2) = l1 ++ a :: l2 ++ b :: l3.
+Proof. exact (store_real_time store_cap). Qed.
+Print Assumptions C20_concurrent_real_time.
+Theorem C20_concurrent_program_order : forall (micro : event -> list (store -> store)) progs sched t,
+  exists rest, proj event t (lin event sresult (hist (store_conc_run store_cap micro progs sched))) ++ rest = progs t.
+Proof. exact (store_program_order store_cap). Qed.
+Print Assumptions C20_concurrent_program_order.
+
+(* the hypothesis on micro is satisfiable by the cut the Go code makes (eviction = blank slot 0 ;
+   re-slice ; append: three separate writes) *)
+Example C20_go_micro_ok : forall e s, apply_all store (go_micro store_cap e) s = Store.step store_cap s e.
+Proof. exact (go_micro_ok store_cap store_cap_pos). Qed.
+(* a concrete interleaving at cap 2: while the third arrival holds the lock and has only blanked
+   slot 0 (store = [""; e2]), two queries are invoked and block; afterwards they answer 2 and 1
+   entries of the window [e2; e3], never the blanked slot *)
+Example C20_concurrent_example :
+  holder exc_mid = Some 0 /\ map String.length (st exc_mid) = [0; String.length (hd EmptyString (entry_list (exc_msg 2)))] /\
+  holder exc_final = None /\ st exc_final = [] /\
+  map snd (rels event sresult (hist exc_final)) =
+    [SArrived true; SArrived true; SArrived true;
+     SAnswer (R200 false (entry_list (exc_msg 2) ++ entry_list (exc_msg 3)));
+     SAnswer (R200 true (entry_list (exc_msg 3))); SResetStatus 200].
+Proof. vm_compute. repeat split; reflexivity. Qed.
 
 (* non-vacuity *)
 Local Open Scope string_scope.
